@@ -22,7 +22,7 @@ RULE = ('cases = flat machines (C01 generator, finalize_event non-empty so that 
 ASSUMPTIONS = ['callbacks call remove_model only for registered models (guarded in the harness) and trigger only known events',
                'every third case runs without a queue on the re-entrant engine (Reent.v): nested triggers are processed inside the calling callback']
 THEOREMS = ['C05_deferred', 'C05_fifo_once', 'C05_top', 'C05_raise_discards', 'C05_remove_exact', 'C05_head_stays',
-            'C05_nothing_lost', 'C05_example', 'C05_unqueued_nested', 'C05_reentrant_refines_flat']
+            'C05_nothing_lost', 'C05_example', 'C05_unqueued_nested', 'C05_reentrant_refines_flat', 'C05_hsm_top']
 
 
 def gen(rng, i, tier):
@@ -294,5 +294,140 @@ def extra_checks(tier, seed):
         c, m, i = bad
         return [('async_queues', False, detail,
                  dict(kind='counterexample', stream='asyncio classes, queued=True / queued=\'model\'', case=c, model_obs=m,
-                      impl_obs=i, theorem='corr_C05 (Queue.drain = the asyncio classes\' queued processing)'))]
-    return [('async_queues', True, detail, {})]
+                      impl_obs=i, theorem='corr_C05 (Queue.drain = the asyncio classes\' queued processing)')),
+                hsm_queue_stream(tier, seed)]
+    return [('async_queues', True, detail, {}), hsm_queue_stream(tier, seed)]
+
+
+# ------------------------------------------------------------------ queued HIERARCHICAL machines
+def gen_hsm_queue(rng, i):
+    import hsm
+    c = hsm.gen_case(rng, p_parallel=0.3, max_events=2, hist_len=1)
+    m = c['machine']
+    if not m['finalize']:
+        m['finalize'] = [900]
+    tops = [d['name'] for d in m['states']]
+    nm = rng.randint(1, 2)
+    c['models'] = [(k, [rng.choice(tops)]) for k in range(nm)]
+    evs = sorted({e for e, _ in m['events']} | {e for _, d in hsm.all_defs(m) for e, _ in d['events']}) or [0]
+    c['history'] = [(rng.randrange(nm), rng.choice(evs), 100 + j) for j in range(rng.randint(1, 4))]
+    bypos = {}
+    for p in range(0, 60):
+        x = rng.random()
+        if x < 0.10:
+            acts = []
+            for _ in range(rng.randint(1, 2)):
+                if rng.random() < 0.8:
+                    acts.append((0, rng.randrange(nm), rng.choice(evs)))
+                else:
+                    acts.append((1, rng.randrange(nm)))
+            bypos[p] = (rng.random() < 0.7, None, acts)
+        elif x < 0.12:
+            bypos[p] = (True, (3 + p % 2, 1), [])
+        elif x < 0.35:
+            bypos[p] = (rng.random() < 0.7, None, [])
+    c['env'] = dict(default=c['env']['default'], bypos=bypos,
+                    bycb={k: (r[0], None, []) for k, r in c['env']['bycb'].items()})
+    c['cls'] = ['HierarchicalMachine', 'LockedHierarchicalMachine', 'HierarchicalGraphMachine'][i % 3]
+    c['init'] = c['models'][0][1]
+    c['queued'] = 1
+    return c
+
+
+def enc_hsm_queue(case):
+    import hsm
+    return [hsm.enc_hmachine(case['machine']), flat.enc_env(case['env']),
+            [[k, p] for k, p in case['models']], [[m, e, a] for m, e, a in case['history']]]
+
+
+def canon_hsm_queue(obs):
+    """model side (Queue.drain blocks over the hierarchical engine) -> per call [items, result, configurations,
+    registered models, processed arrival ids]"""
+    if not isinstance(obs, list) or obs[0] != 1:
+        return obs
+    out = []
+    for step in obs[2]:
+        if step == [9]:
+            out.append('out-of-fuel')
+            continue
+        blocks, res, cfgs, models, qlen = step
+        out.append([[it for b in blocks for it in b[4]], res, cfgs, models, [b[0] for b in blocks if b[4]]])
+    return [1, obs[1], out]
+
+
+def impl_hsm_queue(case):
+    import hsm
+    flat._import_transitions()
+    world = flat.World(case['env'], case['machine']['send'])
+    cname = case['cls']
+    models = [flat.Model() for _ in case['models']]
+    base_recorder = world.recorder
+
+    def named(slot, cb, model_of_call=None):
+        # callbacks by NAME: every model object gets one recording attribute per (slot, callback) that knows its model
+        name = 'cb_%s_%d' % (slot, cb)
+        for mod in models:
+            if not hasattr(mod, name):
+                setattr(mod, name, base_recorder(slot, cb, mod))
+        return name
+    world.recorder = named
+    world.state_of = hsm.state_forest
+    machine, _ = hsm.build_hsm(case, world, flat.get_class(cname), extra_kwargs=flat.class_kwargs(cname), model=[])
+    for (k, ini), mod in zip(case['models'], models):
+        world.model_ids[id(mod)] = k
+        machine.add_model(mod, initial=hsm.sname(ini))
+    init = [[k, world.state_of(mod)] for (k, _), mod in zip(case['models'], models)]
+    st = dict(next_id=0, payload_id={}, act_k={})
+
+    def call_trigger(mod, e, payload):
+        tok = flat.Token(payload)
+        st['payload_id'][payload] = st['next_id']
+        st['next_id'] += 1
+        return mod.trigger('e%d' % e, tok, k=tok)
+
+    def perform(a):
+        cur = st['payload_id'].get(world.items[-1][4][1], 0)
+        k = st['act_k'].get(cur, 0)
+        st['act_k'][cur] = k + 1
+        if a[0] == 0:
+            call_trigger(models[a[1]], a[2], 1000 + 16 * cur + k)
+        elif models[a[1]] in machine.models:
+            machine.remove_model(models[a[1]])
+    world.perform = perform
+    out = []
+    for (m, e, a) in case['history']:
+        world.items = []
+        try:
+            r = call_trigger(models[m], e, a)
+            res = [0, 1 if r is True else (0 if r is False else 7)]
+        except BaseException as ex:  # noqa
+            res = [1, flat.classify_exc(ex)]
+        processed = []
+        for it in world.items:
+            pid = st['payload_id'].get(it[4][1], 999)
+            if not processed or processed[-1] != pid:
+                processed.append(pid)
+        out.append([world.items, res, [[k, world.state_of(mod)] for (k, _), mod in zip(case['models'], models)],
+                    [world.model_ids[id(x)] for x in machine.models], processed])
+    return [1, init, out]
+
+
+def hsm_queue_stream(tier, seed):
+    """queued hierarchical machines (nested / parallel states, 1-2 models) whose callbacks trigger further events,
+    remove models or raise, against Queue.drain instantiated with the hierarchical engine (HsmQueueIO.v); the
+    theorems of Props/C05.v are about Queue.drain for EVERY step function, hence for this instance too"""
+    import framework as F
+    n = 300 if tier == 'quick' else 8000
+    cases = [gen_hsm_queue(random.Random('C05h-%d-%d' % (seed, i)), i) for i in range(n)]
+    mo = [canon_hsm_queue(o) for o in F.run_model(15, [enc_hsm_queue(c) for c in cases])]
+    io = F.run_impl('c05', 'impl_hsm_queue', cases)
+    bad = [(c, m, i) for c, m, i in zip(cases, mo, io) if m != i]
+    multi = sum(1 for m in mo if isinstance(m, list) and m[0] == 1 for st in m[2] if isinstance(st, list) and len(st[4]) >= 2)
+    raised = sum(1 for m in mo if isinstance(m, list) and m[0] == 1 for st in m[2] if isinstance(st, list) and st[1][0] == 1)
+    detail = dict(cases=len(cases), disagreements=len(bad), calls_processing_two_or_more_events=multi, calls_raising=raised)
+    if bad:
+        c, m, i = bad[0]
+        return ('hierarchical_queued_programs', False, detail,
+                dict(kind='counterexample', stream='queued hierarchical machines', case=c, model_obs=m, impl_obs=i,
+                     theorem='corr_C05 (Queue.drain over Hsm.trigger_event = the queued hierarchical classes)'))
+    return ('hierarchical_queued_programs', True, detail, {})
